@@ -217,4 +217,26 @@ func SimpleTasksManager.dispatchTasks
   ensures C19/every-dequeued-task-is-started: tasksLaunched - old(tasksLaunched) == recvs[t.taskCh] - old(recvs[t.taskCh])
   loop 1 modifies everything, tasksLaunched, recvs
   loop 1 invariant C19/every-dequeued-task-is-started: tasksLaunched - old(tasksLaunched) == recvs[t.taskCh] - old(recvs[t.taskCh])
+// ---- C18/C19: every message is decoded into a batch of its own --------------------------------
+// The tasks built for a batch run LATER (at the task manager's next tick) and read the batch
+// through the context they were given. The processing loop therefore must not decode the next
+// message into an object it has already handed to tasks: those tasks would verify, or publish,
+// the later batch twice and the earlier one never.
+immutable BatchProcessor.a, BatchProcessor.log, BatchProcessor.tf by NewBatchProcessor
+// ASSUMED stubs (their code is not the subject here):
+func TaskFactory.New
+  modifies everything
+func TasksManager.Add
+  modifies everything
+func BatchProcessor.Subscribe.$1
+  props C18 C19
+  requires d != nil && d.a != nil && !isnil(d.log)
+  // (everything handed to a context so far exists)
+  requires forall r *protocol.BatchSnapshots :: handedBatches[r] ==> allocated(r)
+  unchecked_panics
+  modifies everything, recvs, handedBatches, encodeCalls, lastEncoded, publishCount, lastPublishedTTL, lastPublishedBatch
+  at BatchSnapshots.Decode assert C18,C19/every-message-is-decoded-into-a-batch-of-its-own: arg0 != nil && !handedBatches[arg0]
+  loop 1 modifies everything, recvs, handedBatches, encodeCalls, lastEncoded, publishCount, lastPublishedTTL, lastPublishedBatch
+  loop 1 invariant d != nil && d.a != nil && !isnil(d.log)
+  loop 1 invariant forall r *protocol.BatchSnapshots :: handedBatches[r] ==> allocated(r)
 @*/
